@@ -54,6 +54,12 @@ that returns a dictionary it built) and that has not been stored or passed
 to code that keeps or changes it; a dictionary passed to `machine.step` must
 be owned and is dead afterwards.  Everything else is refused.
 
+Exception safety: for `Assembly.init` / `Assembly.step` the translator also
+emits `<method>_commits_last : bool`: does every change of a field of self
+come after the last statement that can raise (so that a call that raises
+leaves the object unchanged; the result of the translated function is only
+the error value)?  The bridge pins the flag of `Assembly.step`.
+
 dd-level operations stay parameters (Section variables): aut_let,
 aut_support, aut_pick1 / aut_pick2 (`aut.pick(u)` / `aut.pick(u, care)`),
 aut_varlist, prm_unprimed_support, stx_unprime.
